@@ -15,8 +15,8 @@ from vt.oracles import rexmatch as O
 
 ID = 'C18'
 TIERS = {
-    'quick': dict(shards=16, cases=300, watchdog_s=900),
-    'thorough': dict(shards=16, cases=12000, big=1, watchdog_s=6000),
+    'quick': dict(shards=16, cases=1200, watchdog_s=900),
+    'thorough': dict(shards=16, cases=40000, big=1, watchdog_s=6000),
 }
 RULE = ('cases = multisets with repeats (lists and frequency dicts) x dedup on/off x all extraction options '
         'incl. pruning and sampling sizes; each case queries coverage, incremental_coverage, '
